@@ -149,10 +149,20 @@ def derive(prog) -> Dict[str, str]:
         regs = [k for k, e in qm.attrs.items() if is_registry_call(qm.module, e)]
         if len(regs) == 1:
             assign(regs[0], "_registry")
-        m = qm.module
-        regs = [k for k, e in m.globals.items() if is_registry_call(m, e)] if hasattr(m, "globals") else []
+        # the term -> unit directory: the one module-level registry object of the package, wherever it lives
+        regs = [k for m in prog.modules.values() for k, e in m.globals.items() if is_registry_call(m, e)]
         if len(regs) == 1:
             assign(regs[0], "_TERM_UNIT_MAP")
+    # the symbol -> unit directory: the module-level mapping unit creation enters the new unit into
+    try:
+        from .anchors import symbol_directories
+        dirs = sorted(symbol_directories(prog))
+        if len(dirs) == 1:
+            assign(dirs[0], "_SYMBOL_UNIT_MAP")
+    except Exception:       # noqa: BLE001 - no unit creator found: nothing to derive
+        pass
+    if False:
+        pass
     # ---- Term
     it = single("Term", "items", "_items")
     tslots = _slots(prog, "Term")
@@ -182,10 +192,27 @@ def derive(prog) -> Dict[str, str]:
 def substitute(src: str, mapping: Dict[str, str]) -> str:
     if not mapping:
         return src
-    # two-step (through placeholders) so that swapped names cannot chain
+    # two-step (through placeholders) so that swapped names cannot chain; module paths of import statements are
+    # file names, not attribute names, and stay as they are
     ph = {a: f"\x00{i}\x00" for i, a in enumerate(mapping)}
-    for a in sorted(mapping, key=len, reverse=True):
-        src = re.sub(r"(?<![A-Za-z0-9_])" + re.escape(a) + r"(?![A-Za-z0-9_])", ph[a], src)
-    for a, p in ph.items():
-        src = src.replace(p, mapping[a])
+    pats = [(re.compile(r"(?<![A-Za-z0-9_])" + re.escape(a) + r"(?![A-Za-z0-9_])"), ph[a])
+            for a in sorted(mapping, key=len, reverse=True)]
+
+    def sub(text):
+        for pat, p_ in pats:
+            text = pat.sub(p_, text)
+        return text
+    out = []
+    for line in src.split("\n"):
+        st = line.lstrip()
+        if st.startswith("from ") and " import " in line:
+            head, tail = line.split(" import ", 1)
+            out.append(head + " import " + sub(tail))
+        elif st.startswith("import "):
+            out.append(line)
+        else:
+            out.append(sub(line))
+    src = "\n".join(out)
+    for a, p_ in ph.items():
+        src = src.replace(p_, mapping[a])
     return src
